@@ -30,7 +30,7 @@ PROPS = {
     'C16': {'harnesses': [('c16_ring', 1.0)]},
     'C17': {'harnesses': [('c17_workq', 1.0)]},
     'C18': {'harnesses': [('c18_spin', 1.0)]},
-    'C19': {'harnesses': [('c19_ctx', 0.3), ('c19_ctx_mmap', 0.12), ('c19_ctx_uctx', 0.12), ('c19_ctx_split', 0.16), ('c01_mixed', 0.3)]},
+    'C19': {'harnesses': [('c19_ctx', 0.26), ('c19_ctx_mmap', 0.1), ('c19_ctx_uctx', 0.1), ('c19_ctx_split', 0.14), ('c01_mixed', 0.26), ('c01_mixed_mmap', 0.07), ('c01_mixed_uctx', 0.07)]},
     'C20': {'harnesses': [('c20_dwcas', 0.6), ('c20_msignal', 0.4)]},
 }
 
@@ -53,7 +53,7 @@ RULES = {
     'C16': 'Ring buffer capacity 2/4/8 with pre-advanced indices (0, 2^32, 2^64 wrap, random); try operations, or producer threads with blocking push and consumer threads with blocking pop. Non-trivial: >=2 threads with overlapping operations.',
     'C17': 'Threads push items and drain as worker when told to; in a quarter of the runs the counters are first moved to just below 2^32 under an active worker. Non-trivial: >=2 threads pushed.',
     'C18': 'lock/trylock/unlock with ticket counters next to the 2^32 wrap. Non-trivial: a lock call had to spin.',
-    'C19': 'Bare fiber_context_* switch sequences with allocation faults under four builds (assembly switch with malloc, mmap and gcc split stacks - the last switching some frames down in segments added after creation - and the ucontext back-end), plus the register/stack shim on every suspending call of the mixed runtime programs. Non-trivial: >=3 contexts or a migrated fiber.',
+    'C19': 'Bare fiber_context_* switch sequences with allocation faults under four builds (assembly switch with malloc, mmap and gcc split stacks - the last switching some frames down in segments added after creation - and the ucontext back-end), plus the register/stack shim on every suspending call of the mixed runtime programs (whole runtime built with malloc stacks, with mmap stacks and with the ucontext back-end). Non-trivial: >=3 contexts or a migrated fiber.',
     'C20': 'LIFO, dist FIFO and flushable stack histories with immediate node reuse; multi-signal wait/raise on the runtime, including a scripted stale-snapshot (ABA) interleaving with the raiser held before its double-word CAS. Non-trivial: a DWCAS failed at least once or a waiter blocked.',
 }
 
